@@ -23,8 +23,8 @@ import time
 
 VERIF = os.path.dirname(os.path.dirname(os.path.abspath(__file__)))
 REPO = os.environ.get("VERIF_REPO", "/repo")
-BUILD = os.path.join(VERIF, ".build")
-EVID = os.path.join(VERIF, "evidence")
+BUILD = os.environ.get("VERIF_BUILD") or os.path.join(VERIF, ".build")      # overridden only by tools/run_seed.sh (scratch runs)
+EVID = os.environ.get("VERIF_EVID") or os.path.join(VERIF, "evidence")
 NCPU = int(os.environ.get("VERIF_JOBS", "16"))
 MEM_BUDGET_GB = int(os.environ.get("VERIF_MEM_GB", "44"))
 
@@ -418,8 +418,9 @@ def run_entry(unit, e, with_trace_for=None, suffix="", no_kf=False):
             cb += ["--unwindset", ",".join(e.unwindset)]
         if e.unwind is not None or e.unwindset:
             cb += ["--unwinding-assertions"]
-        if e.object_bits:
-            cb += ["--object-bits", str(e.object_bits)]
+        ob = e.object_bits or (12 if unit.lang == "cpp" else None)
+        if ob:
+            cb += ["--object-bits", str(ob)]
         if e.solver == "kissat":
             cb += ["--external-sat-solver", "kissat"]
         elif e.solver in ("cvc5", "z3"):
